@@ -50,7 +50,33 @@ def chargeRoutes : List String :=
     | .ok u => routeLabel c10Pre c10Lut c10Em S u
     | .error _ => "unit-error"
 
+/-- does the namespace `sid` of the regenerated table belong to a unit system with a current unit
+    (`sys:<name>` → the regenerated system of that name; `pc`, `top`, `fresh` and the translator's
+    custom system use the default ampere) -/
+def spaceSystemHasCurrent (sid : String) : Bool :=
+  match sid.toList with
+  | 's' :: 'y' :: 's' :: ':' :: rest =>
+    match findSystem Rat (String.ofList rest) with
+    | some S => S.hasCurrent
+    | none => true
+  | _ => true
+
+/-- every plain / `_mks` / `hmks` entry has the very dimension of its table row -/
+def plainDimIsTable (rows : List MatRow) : Bool :=
+  (rowsByConst rows).all fun p => p.2.all fun gr =>
+    (gr.1 == .cgs || gr.1 == .hcgs) || gr.2.dim == p.1.spec.dim
+
+def plainDimOk : Bool := spaces.all fun s => !spaceSystemHasCurrent s.1 || plainDimIsTable s.2
+
 end
+
+/-- "equal as quantities" admits the Gaussian counterpart only where SI is not available: in every
+    namespace built on a unit system that has a current unit, every non-`_cgs` guise of every constant
+    has the dimension of its table row (narrows `materialised_match_table`, whose `sameQuantity`
+    accepts SI or Gaussian in either direction) -/
+theorem plain_guises_keep_dimension_in_current_systems : plainDimOk = true := by decide +kernel
+
+example : (spaces.filter fun s => !spaceSystemHasCurrent s.1).map (·.1) = ["sys:cgs"] := by decide +kernel
 
 /-- every row of `physical_constants`, materialised by the model of `add_constants` for every
     built-in unit system, is the table's quantity (or its Gaussian reading by the table's factor),
